@@ -863,4 +863,223 @@ theorem attInv_of_isFixpoint {g : GrammarSpec} {r : Reg} {d : DistTable}
   intro s hs
   exact key _ _ s rfl hs rfl
 
+/-! ### Reachability -/
+
+/-- `ReachPlus g r a b`: there is a non-empty path `a → … → b` along `succs g r` -/
+inductive ReachPlus (g : GrammarSpec) (r : Reg) : Sym → Sym → Prop
+  | step {a b : Sym} : b ∈ succs g r a → ReachPlus g r a b
+  | tail {a b c : Sym} : ReachPlus g r a b → c ∈ succs g r b → ReachPlus g r a c
+
+/-- reflexive-transitive closure -/
+def Reach (g : GrammarSpec) (r : Reg) (a b : Sym) : Prop := a = b ∨ ReachPlus g r a b
+
+theorem Reach.tail {g : GrammarSpec} {r : Reg} {a b c : Sym} (h : Reach g r a b)
+    (hc : c ∈ succs g r b) : ReachPlus g r a c := by
+  rcases h with rfl | h
+  · exact .step hc
+  · exact .tail h hc
+
+theorem ReachPlus.trans {g : GrammarSpec} {r : Reg} {a b c : Sym} (h1 : ReachPlus g r a b)
+    (h2 : ReachPlus g r b c) : ReachPlus g r a c := by
+  induction h2 with
+  | step h => exact .tail h1 h
+  | tail _ h ih => exact .tail ih h
+
+/-- the registered symbols are closed under the successor relation -/
+def ClosedNodes (g : GrammarSpec) (r : Reg) : Prop :=
+  ∀ x ∈ r.allNodes, ∀ y ∈ succs g r x, y ∈ r.allNodes
+
+instance (g : GrammarSpec) (r : Reg) : Decidable (ClosedNodes g r) := by
+  unfold ClosedNodes; infer_instance
+
+theorem ReachPlus.mem_of_closed {g : GrammarSpec} {r : Reg} {U : List Sym}
+    (hU : ∀ x ∈ U, ∀ y ∈ succs g r x, y ∈ U) {a b : Sym} (ha : a ∈ U) (h : ReachPlus g r a b) :
+    b ∈ U := by
+  induction h with
+  | step h => exact hU _ ha _ h
+  | tail _ h ih => exact hU _ ih _ h
+
+theorem mem_addAll {acc xs : List Sym} {y : Sym} : y ∈ addAll acc xs ↔ y ∈ acc ∨ y ∈ xs := by
+  unfold addAll
+  induction xs generalizing acc with
+  | nil => simp
+  | cons x xs ih =>
+    simp only [List.foldl_cons, List.mem_cons]
+    rw [ih]
+    split
+    · rename_i hx
+      have hx' : x ∈ acc := by simpa using hx
+      constructor
+      · rintro (h | h)
+        · exact .inl h
+        · exact .inr (.inr h)
+      · rintro (h | rfl | h)
+        · exact .inl h
+        · exact .inl hx'
+        · exact .inr h
+    · simp only [List.mem_append, List.mem_singleton]
+      constructor
+      · rintro ((h | h) | h)
+        · exact .inl h
+        · exact .inr (.inl h)
+        · exact .inr (.inr h)
+      · rintro (h | h | h)
+        · exact .inl (.inl h)
+        · exact .inl (.inr h)
+        · exact .inr h
+
+theorem addAll_nodup {acc xs : List Sym} (h : acc.Nodup) : (addAll acc xs).Nodup := by
+  unfold addAll
+  induction xs generalizing acc with
+  | nil => simpa using h
+  | cons x xs ih =>
+    simp only [List.foldl_cons]
+    apply ih
+    split
+    · exact h
+    · rename_i hx
+      have hx' : x ∉ acc := by simpa using hx
+      rw [List.nodup_append]
+      refine ⟨h, by simp, ?_⟩
+      intro a ha b hb
+      simp only [List.mem_singleton] at hb
+      subst hb
+      exact fun e => hx' (e ▸ ha)
+
+theorem mem_next {g : GrammarSpec} {r : Reg} {frontier : List Sym} {y : Sym} :
+    y ∈ (frontier.map (succs g r)).flatten ↔ ∃ x ∈ frontier, y ∈ succs g r x := by
+  simp only [List.mem_flatten, List.mem_map]
+  constructor
+  · rintro ⟨l, ⟨x, hx, rfl⟩, hy⟩; exact ⟨x, hx, hy⟩
+  · rintro ⟨x, hx, hy⟩; exact ⟨_, ⟨x, hx, rfl⟩, hy⟩
+
+/-- Everything `reachFrom` collects is reachable in at least one step (any fuel). -/
+theorem reachFrom_sound (g : GrammarSpec) (r : Reg) (s : Sym) :
+    ∀ (fuel : Nat) (frontier seen : List Sym),
+      (∀ x ∈ frontier, Reach g r s x) → (∀ x ∈ seen, ReachPlus g r s x) →
+      ∀ x ∈ reachFrom g r fuel frontier seen, ReachPlus g r s x := by
+  intro fuel
+  induction fuel with
+  | zero => intro frontier seen _ hs x hx; exact hs x hx
+  | succ n ih =>
+    intro frontier seen hf hs x hx
+    simp only [reachFrom] at hx
+    split at hx
+    · exact hs x hx
+    · have hfresh : ∀ y ∈ ((frontier.map (succs g r)).flatten.filter fun x => !seen.contains x),
+          ReachPlus g r s y := by
+        intro y hy
+        obtain ⟨a, ha, hya⟩ := mem_next.1 (List.mem_filter.1 hy).1
+        exact (hf a ha).tail hya
+      refine ih _ _ ?_ ?_ x hx
+      · intro y hy
+        rcases mem_addAll.1 hy with h | h
+        · simp at h
+        · exact .inr (hfresh y h)
+      · intro y hy
+        rcases mem_addAll.1 hy with h | h
+        · exact hs y h
+        · exact hfresh y h
+
+/-- With enough fuel (`U` any list containing everything reachable from `s`) `reachFrom` collects
+everything reachable in at least one step. -/
+theorem reachFrom_complete (g : GrammarSpec) (r : Reg) (s : Sym) (U : List Sym)
+    (hU : ∀ x, ReachPlus g r s x → x ∈ U) :
+    ∀ (fuel : Nat) (frontier seen : List Sym),
+      (∀ x ∈ frontier, Reach g r s x) → (∀ x ∈ seen, ReachPlus g r s x) → seen.Nodup →
+      (∀ x, (x ∈ seen ∨ x = s) → x ∉ frontier → ∀ y ∈ succs g r x, y ∈ seen) →
+      U.length + 1 ≤ fuel + seen.length →
+      ∀ x, ReachPlus g r s x → x ∈ reachFrom g r fuel frontier seen := by
+  intro fuel
+  induction fuel with
+  | zero =>
+    intro frontier seen _ hs hnd _ hlen
+    have := hnd.length_le_of_subset (l₂ := U) (fun x hx => hU x (hs x hx))
+    omega
+  | succ n ih =>
+    intro frontier seen hf hs hnd hcl hlen x hx
+    simp only [reachFrom]
+    have hfresh : ∀ y, y ∈ ((frontier.map (succs g r)).flatten.filter fun x => !seen.contains x) ↔
+        (∃ a ∈ frontier, y ∈ succs g r a) ∧ y ∉ seen := by
+      intro y; rw [List.mem_filter, mem_next]; simp
+    split
+    · rename_i hemp
+      have hemp' : ∀ y, (∃ a ∈ frontier, y ∈ succs g r a) → y ∈ seen := by
+        intro y hy
+        apply Classical.byContradiction
+        intro hn
+        have := (hfresh y).2 ⟨hy, hn⟩
+        rw [List.isEmpty_iff.1 hemp] at this
+        simp at this
+      have hclosed : ∀ a, (a ∈ seen ∨ a = s) → ∀ y ∈ succs g r a, y ∈ seen := by
+        intro a ha y hy
+        by_cases haf : a ∈ frontier
+        · exact hemp' y ⟨a, haf, hy⟩
+        · exact hcl a ha haf y hy
+      induction hx with
+      | step h => exact hclosed s (.inr rfl) _ h
+      | tail _ h ih' => exact hclosed _ (.inl ih') _ h
+    · rename_i hne
+      obtain ⟨w, hw⟩ : ∃ w, w ∈ ((frontier.map (succs g r)).flatten.filter fun x => !seen.contains x) := by
+        cases hl : ((frontier.map (succs g r)).flatten.filter fun x => !seen.contains x) with
+        | nil => rw [hl] at hne; simp at hne
+        | cons w _ => exact ⟨w, List.mem_cons_self⟩
+      have hreach : ∀ y ∈ ((frontier.map (succs g r)).flatten.filter fun x => !seen.contains x),
+          ReachPlus g r s y := by
+        intro y hy
+        obtain ⟨⟨a, ha, hya⟩, _⟩ := (hfresh y).1 hy
+        exact (hf a ha).tail hya
+      refine ih _ _ ?_ ?_ (addAll_nodup hnd) ?_ ?_ x hx
+      · intro y hy
+        rcases mem_addAll.1 hy with h | h
+        · simp at h
+        · exact .inr (hreach y h)
+      · intro y hy
+        rcases mem_addAll.1 hy with h | h
+        · exact hs y h
+        · exact hreach y h
+      · intro a ha hna y hy
+        have hna' : a ∉ ((frontier.map (succs g r)).flatten.filter fun x => !seen.contains x) :=
+          fun h => hna (mem_addAll.2 (.inr h))
+        have ha' : a ∈ seen ∨ a = s := by
+          rcases ha with ha | ha
+          · rcases mem_addAll.1 ha with h | h
+            · exact .inl h
+            · exact absurd h hna'
+          · exact .inr ha
+        by_cases haf : a ∈ frontier
+        · by_cases hys : y ∈ seen
+          · exact mem_addAll.2 (.inl hys)
+          · exact mem_addAll.2 (.inr ((hfresh y).2 ⟨⟨a, haf, hy⟩, hys⟩))
+        · exact mem_addAll.2 (.inl (hcl a ha' haf y hy))
+      · have hwn : w ∉ seen := ((hfresh w).1 hw).2
+        have hnd' : (w :: seen).Nodup := List.nodup_cons.2 ⟨hwn, hnd⟩
+        have := hnd'.length_le_of_subset
+          (l₂ := addAll seen ((frontier.map (succs g r)).flatten.filter fun x => !seen.contains x))
+          (by
+            intro z hz
+            rcases List.mem_cons.1 hz with rfl | hz
+            · exact mem_addAll.2 (.inr hw)
+            · exact mem_addAll.2 (.inl hz))
+        simp only [List.length_cons] at this
+        omega
+
+/-- `reachFrom` from `[s]` with the fuel the model gives it: exactly the symbols reachable in at
+least one step, provided the registered symbols contain everything reachable from `s`. -/
+theorem mem_reachFrom_iff {g : GrammarSpec} {r : Reg} {s : Sym}
+    (hU : ∀ x, ReachPlus g r s x → x ∈ r.allNodes) (x : Sym) :
+    x ∈ reachFrom g r (r.allNodes.length + 1) [s] [] ↔ ReachPlus g r s x := by
+  constructor
+  · exact reachFrom_sound g r s _ _ _ (by intro y hy; simp at hy; exact .inl hy.symm)
+      (by intro y hy; simp at hy) x
+  · exact reachFrom_complete g r s r.allNodes hU _ _ _
+      (by intro y hy; simp at hy; exact .inl hy.symm) (by intro y hy; simp at hy)
+      List.nodup_nil
+      (by
+        intro a ha hna
+        rcases ha with ha | ha
+        · simp at ha
+        · subst ha; simp at hna)
+      (by simp) x
+
 end GEVerif.Analysis
